@@ -508,7 +508,7 @@ pub fn explore(rep: &Report, prop: &str, th: bool) -> Explored {
     for i in 0..small.len() {
         for c in 0..cfgs.len() {
             for e in 0..3 {
-                if !th && (i * 7 + c * 3 + e) % 18 != 0 {
+                if (i * 7 + c * 3 + e) % (if th { 3 } else { 18 }) != 0 {
                     continue;
                 }
                 for a in 0..nact_s {
@@ -627,8 +627,21 @@ pub fn explore(rep: &Report, prop: &str, th: bool) -> Explored {
                 };
                 let mut ds = DevSearch::new(&m, pol, alts, 100_000, u64::MAX);
                 ds.stride = match p { 0 | 1 => 1, 2 => if th { 4 } else { 16 }, _ => if th { 16 } else { 64 } };
-                ds.run(m.init(), if th && p <= 1 { 2 } else { 1 });
+                ds.run(m.init(), 1);
                 acc.stats.merge(&ds.stats);
+                if th && p <= 1 {
+                    // second deviation level with a thinner menu (the full menu squared is ~10^7 runs per item)
+                    let mut thin = vec![];
+                    for &f in &[F_NONE, F_SYNC, F_FULL, F_FINISH, F_PARTIAL] {
+                        for &(k, cap) in &[(0u32, 1u32), (1, 5), (REST, 2), (REST, LARGE), (258, 100)] {
+                            thin.push(Act { k, cap, flush: f });
+                        }
+                    }
+                    let mut ds = DevSearch::new(&m, pol, thin, 100_000, u64::MAX);
+                    ds.stride = if p == 0 { 1 } else { 2 };
+                    ds.run(m.init(), 2);
+                    acc.stats.merge(&ds.stats);
+                }
                 acc.runs += 1;
                 for (k, v) in m.cov.lock().unwrap().iter() {
                     *acc.cov.entry(k).or_insert(0) += v;
@@ -829,7 +842,8 @@ fn finish_report(rep: &Report, prop: &str, th: bool, ex: Explored) -> i32 {
     rep.set("max_calls_in_one_execution", json!(total.max_depth));
     rep.set("capped", json!(total.capped));
     rep.set("full_depth_completed_small_inputs", json!(full_depth));
-    rep.set("deviation_bound_completed", json!(1));
+    rep.set("deviation_bound_completed", json!(if th { 2 } else { 1 }));
+    rep.set("deviation_note", json!("bound 1 with the full alternative menu around every policy; thorough adds bound 2 with a 25-alternative menu around the two short policies"));
     rep.set("configurations", json!(cfg_names));
     rep.set("monitor_events", json!(cov));
     rep.set("nosync_sync_pairs", json!(nosync_pairs));
